@@ -197,7 +197,9 @@ func (srv *Server) handleConn(conn net.Conn) {
 	logger.Info("New connection")
 	var tlsState *tls.ConnectionState
 	if tcon, ok := conn.(*tls.Conn); ok {
-		if err := tcon.Handshake(); err != nil {
+		// Bound the handshake by the receive context so that a peer which never completes it
+		// cannot keep this goroutine (and therefore Shutdown) waiting forever.
+		if err := tcon.HandshakeContext(srv.recvCtx); err != nil {
 			_ = tcon.Close()
 			logger.Warn("TLS handshake failure. Closing client connection", "err", err)
 			return
